@@ -795,6 +795,7 @@ func runC12(c *Ctx) {
 	r := c.Res
 	util.ENABLE_LOGGING = false
 	c12Wait = c12Scaled(10 * time.Second)
+	c12QueueBaseInit(c) // before anything initialises util.RelPath
 	defer func() {
 		if !c12Part("tierb") {
 			return
@@ -911,6 +912,9 @@ func runC12(c *Ctx) {
 	}
 	if c12Part("cluster") {
 		runC12Cluster(c)
+	}
+	if c12Part("queue") {
+		runC12Queue(c)
 	}
 	if c12Part("local") {
 		runC12Local(c)
